@@ -11,6 +11,7 @@ package main
 //   A<k>.<s><m>  AddAddresses([address k], source s)    address k = 45.(10+k).1.1:8333, source s = 46.(10+s).1.1
 //                m is REALISED and part of the case: '+' the call put the address into one more new bucket
 //                (the bucket hash and updateAddress's 1-in-2N lottery are the manager's own), '-' it did not
+//   O<k>.<s><m>  the same with a time stamp of 40 days ago (gossip about a node nobody has seen for a month)
 //   G<k>         Good(address k)           B<k>   BanAddress(key of address k)
 //   Q            GetAddress() under a 500 ms deadline
 // obs:    per op  <nTried>,<nNew>,<in tried table>,<in new buckets>,<index>/<refs of address 1..K, -1 unknown>
@@ -64,7 +65,7 @@ func c18RunAb(ops []string) (line, obs string) {
 			continue
 		}
 		switch o[0] {
-		case 'A':
+		case 'A', 'O':
 			f := strings.Split(o[1:], ".")
 			if len(f) != 2 {
 				return strings.Join(ops, ";"), "BAD-INPUT"
@@ -77,7 +78,11 @@ func c18RunAb(ops []string) (line, obs string) {
 			key := addrmgr.NetAddressKey(c18AbAddr(k))
 			before := am.VerifC18Refs(key)
 			src := wire.NewNetAddressIPPort(net.IPv4(46, byte(10+s), 1, 1), 8333, wire.SFNodeNetwork)
-			am.AddAddresses([]*wire.NetAddress{c18AbAddr(k)}, src)
+			na := c18AbAddr(k)
+			if o[0] == 'O' {
+				na.Timestamp = time.Now().Add(-40 * 24 * time.Hour)
+			}
+			am.AddAddresses([]*wire.NetAddress{na}, src)
 			after := am.VerifC18Refs(key)
 			mark := "-"
 			if after >= 0 && (before < 0 || after > before) {
@@ -128,6 +133,7 @@ func c18AbCases(c *Ctx, emit func(ops []string, tag string)) {
 		"A1.1;A2.2;G1;G2;B1;Q;B2;Q", "B1;A1.1;Q", "A1.1;B1;A1.2;Q", "A1.1;G1;G1;B1;B1;Q", "G1;B1;Q",
 		"A1.1;A1.2;A1.3;A1.4;A1.5;A1.6;A1.7;A1.8;B1;Q", "A1.1;A1.2;A1.3;A1.4;G1;A1.5;B1;Q",
 		"A1.1;A1.2;A1.3;A2.1;B1;Q;Q;Q", "A1.1;A2.1;A3.1;G1;G2;G3;B1;B2;B3;Q;A4.1;Q",
+		"O1.1;Q;Q", "O1.1;O2.2;O3.3;Q;Q;Q", "A1.1;G1;O2.1;O3.1;Q;Q;Q;Q;Q;Q", "O1.1;G1;A2.1;Q;Q;Q;Q;Q;Q", "O1.1;A1.2;Q;Q",
 	} {
 		emit(sp(s), "fixed")
 	}
@@ -137,6 +143,8 @@ func c18AbCases(c *Ctx, emit func(ops []string, tag string)) {
 		for j, ln := 0, 1+c.Rng.Intn(28); j < ln; j++ {
 			k := 1 + c.Rng.Intn(nk)
 			switch x := c.Rng.Intn(20); {
+			case x < 2:
+				ops = append(ops, fmt.Sprintf("O%d.%d", k, 1+c.Rng.Intn(12)))
 			case x < 10:
 				ops = append(ops, fmt.Sprintf("A%d.%d", k, 1+c.Rng.Intn(12)))
 			case x < 14:
